@@ -314,6 +314,10 @@ def rejected_sets(table, var_pred):
             continue
         c = g["cond"]
         n = P.call_name(c)
+        if n and n.rsplit("::", 1)[-1] == "is_empty" and len(c[4]) == 1 and var_pred(("len", P.norm(c[4][0]))):
+            # x.is_empty()  ==  x.len() == 0
+            out.append((g, [(0, 0)] if fw else [(1, None)], []))
+            continue
         if n and n.rsplit("::", 1)[-1] == "contains" and len(c[4]) == 2 and var_pred(c[4][1]):
             rb = _range_bounds(c[4][0])
             if rb is None:
@@ -323,6 +327,11 @@ def rejected_sets(table, var_pred):
             outside = ([(0, lo - 1)] if lo > 0 else []) + [(hi, None)]
             out.append((g, inside if fw else outside, cts))
     return out
+
+
+def rejects_empty(table, coll_pred):
+    """guards that fail (only) when a collection satisfying coll_pred is empty: `c.is_empty()`, `c.len() == 0`, `c.len() < 1`, …"""
+    return [g for g, ivs, _ in rejected_sets(table, lambda t: isinstance(t, tuple) and len(t) == 2 and t[0] == "len" and coll_pred(P.norm(t[1]))) if ivs == [(0, 0)]]
 
 
 def union_intervals(ivs):
